@@ -13,9 +13,14 @@ import (
 
 func init() {
 	register(&core.Rule{
-		ID: "VAL-IDENTITY", Props: []string{"C05", "C11"}, Floor: 1,
+		ID: "VAL-IDENTITY", Props: []string{"C05"}, Floor: 40,
 		Doc: "no ==/!=, switch tag or map key whose type contains tla.Value (pointer-represented: Go identity is not TLA+ equality)",
-		Run: runValIdentity,
+		Run: func(c *core.Ctx) { runValIdentity(c, "") },
+	})
+	register(&core.Rule{
+		ID: "VAL-IDENTITY-2PC", Props: []string{"C11"}, Floor: 1,
+		Doc: "VAL-IDENTITY restricted to the file(s) declaring the 2PC resource: the acceptor must treat gob-decoded (fresh-pointer) proposer ids and values like in-process ones",
+		Run: func(c *core.Ctx) { runValIdentity(c, "TwoPCArchetypeResource") },
 	})
 	register(&core.Rule{
 		ID: "PURE-UNUSED", Props: []string{"C12", "C05"}, Floor: 1,
@@ -29,16 +34,37 @@ func init() {
 	})
 }
 
-func runValIdentity(c *core.Ctx) {
+func runValIdentity(c *core.Ctx, onlyFileOfType string) {
 	e := EnvOf(c.Prog)
 	val := tlaValue(e)
 	if val == nil {
 		c.Lost("tla.Value", "type tla.Value not found")
 		return
 	}
+	var onlyFile *ast.File
+	if onlyFileOfType != "" {
+		n := e.Ix.LookupType(an.PkgResources, onlyFileOfType)
+		if n == nil {
+			c.Lost("resources."+onlyFileOfType, "type not found")
+			return
+		}
+		pk := c.Prog.Pkg(an.PkgResources)
+		for _, f := range pk.Files {
+			if f.Pos() <= n.Obj().Pos() && n.Obj().Pos() <= f.End() {
+				onlyFile = f
+			}
+		}
+		if onlyFile == nil {
+			c.Lost("resources."+onlyFileOfType, "declaring file not found")
+			return
+		}
+	}
 	sites := 0
 	for _, pk := range c.Prog.Sorted() {
 		for _, f := range pk.Files {
+			if onlyFile != nil && f != onlyFile {
+				continue
+			}
 			ast.Inspect(f, func(n ast.Node) bool {
 				switch x := n.(type) {
 				case *ast.BinaryExpr:
@@ -72,6 +98,19 @@ func runValIdentity(c *core.Ctx) {
 		}
 	}
 	c.Count("comparison/switch/map-type sites", sites)
+	if onlyFile != nil {
+		if sites < 20 {
+			c.Lost("2pc-sites", "only %d comparison sites in the 2PC file", sites)
+		}
+		bad := false
+		for _, o := range c.Obs {
+			bad = bad || o.Verdict == core.Violation
+		}
+		if !bad {
+			c.Ok("file of resources."+onlyFileOfType, onlyFile.Pos(), "no identity comparison / map key on tla.Value among %d sites", sites)
+		}
+		return
+	}
 	// every package contributes one "clean" obligation so that the count reflects coverage
 	for _, pk := range c.Prog.Sorted() {
 		bad := false
